@@ -93,6 +93,13 @@ func runRL(x *X) {
 	for i, n := range names {
 		scripts[n] = drawScript(i != 0) // client A stays sequential (differential oracle)
 	}
+	if nClients > 1 && c.Intn(8, "steady-polling") == 0 {
+		gap := []time.Duration{time.Millisecond, 5 * time.Millisecond, 15 * time.Millisecond, refill / 20}[c.Intn(4, "poll-gap")]
+		if gap >= refill {
+			gap = refill / 2
+		}
+		scripts[names[nClients-1]] = []rlOp{{kind: "allow", n: max + 1}, {kind: "poll", n: 60 + c.Intn(120, "polls"), d: refill - gap}}
+	}
 	var second []rlOp // a second concurrent task for one of the other clients
 	secondFor := ""
 	if nClients > 1 && c.Intn(2, "second") == 1 {
@@ -106,6 +113,8 @@ func runRL(x *X) {
 		for _, op := range sc {
 			if op.kind == "sleep" {
 				d += fmt.Sprintf("sleep(%v) ", op.d)
+			} else if op.kind == "poll" {
+				d += fmt.Sprintf("poll(%d every %v) ", op.n, op.d)
 			} else {
 				d += fmt.Sprintf("%s(%d) ", op.kind, op.n)
 			}
@@ -146,6 +155,15 @@ func runRL(x *X) {
 						}
 					}
 				}
+			case "poll":
+				// steady polling just under the refill period: any per-refill rounding in the
+				// client's favour adds up over many periods
+				for i := 0; i < op.n; i++ {
+					TaskSleep(op.d)
+					ok := l1.Allow(client)
+					rec(client, ok)
+				}
+				x.Probe("steady-polling")
 			case "burst":
 				done := 0
 				for i := 0; i < op.n; i++ {
